@@ -4,7 +4,7 @@ use crate::infra::*;
 use pdatastructs::reservoirsampling::ReservoirSampling;
 use serde_json::json;
 
-pub const RULE: &str = "k in {1,2,3,7,64,1000}, stream = position ids, n across all three phases and their boundaries and up to 1e5 (1e6 thorough); RNGs: FastRng, HostileRng with p in {0.05,0.5,0.95}, scripted prefixes (all-zero / all-ones / alternating words); after every add (n <= 3000) or every 97 adds: len = min(n,k), every item < n, no repeated position, prefix kept in order until the (k+1)-th add, i() = n, is_empty iff n = 0; any panic is a violation; streams of <= 20000 items are followed by clear() and a second identical round. non-trivial = run that reached the gap-sampling phase with >= 1 accepted and >= 1 skipped item; distinct = (k, n, rng) tuples";
+pub const RULE: &str = "k in {1,2,3,7,64,1000} (plus one run with k = 2^32-1 and 2^32+1000 adds of a zero-sized item), stream = position ids, n across all three phases and their boundaries and up to 1e5 (1e6 thorough); RNGs: FastRng, HostileRng with p in {0.05,0.5,0.95}, scripted prefixes (all-zero / all-ones / alternating words); after every add / Extend::extend run (n <= 3000) or every 97 adds (about 40 % of the runs feed parts of the stream through extend() with an iterator whose size hint over-estimates): len = min(n,k), every item < n, no repeated position, prefix kept in order until the (k+1)-th add, i() = n, is_empty iff n = 0; any panic is a violation; streams of <= 20000 items are followed by clear() and a second identical round. non-trivial = run that reached the gap-sampling phase with >= 1 accepted and >= 1 skipped item; distinct = (k, n, rng) tuples";
 pub const ASSUMPTIONS: &[&str] = &["hostile RNGs are never constant, so rand's own rejection loops terminate"];
 
 fn rng_for(kind: u64, seed: u64, r: &mut FastRng) -> (CtlRng, String) {
@@ -40,6 +40,8 @@ fn item(ctx: &Ctx, i: usize, rep: &mut Report) {
     rep.config(format!("k={},{}", k, rname));
     let snap0 = pdatastructs::verif::snapshot();
     let every = if n <= 3000 { 1 } else { 97 };
+    let use_extend = r.chance(0.4);
+    let mut xr = FastRng::new(r.next());
     let res = guarded(|| -> Option<(String, String)> {
         let mut s: ReservoirSampling<u32, CtlRng> = ReservoirSampling::new(k, rng);
         if !s.is_empty() || s.i() != 0 || !s.reservoir().is_empty() || s.k() != k {
@@ -57,10 +59,20 @@ fn item(ctx: &Ctx, i: usize, rep: &mut Report) {
                 return Some(("C18/state-after-clear".into(), format!("after clear(): i() = {}, is_empty() = {}, {} items", s.i(), s.is_empty(), s.reservoir().len())));
             }
         }
-        for p in 0..n {
-            s.add(p as u32);
-            let cnt = p + 1;
-            if cnt % every != 0 && cnt != n && cnt > k + 1 {
+        let mut fed = 0usize;
+        while fed < n {
+            if use_extend && xr.chance(0.02) {
+                // feed a run through Extend with an iterator whose size hint over-estimates (filter)
+                let l = (1 + xr.below(60) as usize).min(n - fed);
+                let base = fed as u32;
+                s.extend((0..2 * l as u32).filter(|j| j % 2 == 0).map(|j| base + j / 2));
+                fed += l;
+            } else {
+                s.add(fed as u32);
+                fed += 1;
+            }
+            let cnt = fed;
+            if cnt % every != 0 && cnt != n && cnt > k + 60 {
                 continue;
             }
             let rv = s.reservoir();
@@ -114,6 +126,36 @@ fn item(ctx: &Ctx, i: usize, rep: &mut Report) {
     }
 }
 
+/// "add never panics for any k >= 1 and any stream length": k = 2^32 - 1 with more than 2^32 adds of a
+/// zero-sized item (arithmetic that only wraps for values beyond 32 bits). Release build only.
+fn huge_k(rep: &mut Report) {
+    let k: usize = u32::MAX as usize;
+    let n: u64 = (1u64 << 32) + 1000;
+    let res = guarded(|| -> Option<(String, String)> {
+        let mut s: ReservoirSampling<(), CtlRng> = ReservoirSampling::new(k, CtlRng::fast(7));
+        for j in 0..n {
+            s.add(());
+            if j & 0xff_ffff == 0 {
+                beat(); // progress heartbeat for the liveness monitor
+            }
+        }
+        if s.i() as u64 != n {
+            return Some(("C18/i".into(), format!("i() = {} after {} adds (k = {})", s.i(), n, k)));
+        }
+        if s.reservoir().len() != k {
+            return Some(("C18/len".into(), format!("reservoir holds {} items after {} adds (k = {})", s.reservoir().len(), n, k)));
+        }
+        None
+    });
+    rep.evaluations += n;
+    rep.count("huge_k_runs", 1);
+    match res {
+        Ok(None) => {}
+        Ok(Some((sig, what))) => rep.violation(sig, format!("reservoir(k=2^32-1, zero-sized items): {}", what), json!({"k": k, "n": n})),
+        Err(msg) => rep.violation(format!("C18/panic/{}", panic_class(&msg)), format!("reservoir(k=2^32-1, n={}, zero-sized items): add panicked: {}", n, msg), json!({"k": k, "n": n})),
+    }
+}
+
 pub fn run(ctx: &Ctx) -> Report {
     let n = match (ctx.tier, ctx.is_dbg()) {
         (Tier::Quick, false) => 20_000,
@@ -121,7 +163,12 @@ pub fn run(ctx: &Ctx) -> Report {
         (Tier::Thorough, false) => 200_000,
         (Tier::Thorough, true) => 4000,
     };
-    let mut rep = par_run(ctx, n, |i, rep| item(ctx, i, rep));
+    let mut rep = par_run(ctx, n, |i, rep| {
+        if i == 0 && !ctx.is_dbg() {
+            huge_k(rep);
+        }
+        item(ctx, i, rep)
+    });
     rep.require_events(&["ResFill", "ResReplace", "ResNoReplace", "ResGapAccept", "ResGapSkip"]);
     rep
 }
